@@ -442,3 +442,9 @@ def r8(rr, repo):
     c01r2(rr, repo)
     c01r8(rr, repo)
     c01r9(rr, repo)
+
+
+@rule('C02.R9', "frames travel unaltered through the transport: the publisher's split of a message into envelope field and frames is undone exactly by the receiver (shares C09.R6)")
+def r9(rr, repo):
+    from .c09 import r6 as c09r6
+    c09r6(rr, repo)
